@@ -847,6 +847,12 @@ class Interp:
         if fr.ifn is not None and self.w.loop_hooks:
             ordn = self._loop_ordinal(fr.ifn, st)
             hook = self.w.loop_hooks.get((fr.ifn.fullname, ordn))
+            if hook is None:
+                # ... or by position among the loops that are statements of the function body itself (a key that does
+                # not move when an inner loop is folded into a helper or a comprehension)
+                top = [n for n in fr.ifn.node.body if isinstance(n, (ast.For, ast.While))]
+                if st in top:
+                    hook = self.w.loop_hooks.get((fr.ifn.fullname, "top", top.index(st)))
         if hook is not None:
             hook(self, st, fr, it)
             return
